@@ -12,6 +12,7 @@ import (
 	"verifharness/drv"
 	"verifharness/gen"
 	"verifharness/ref"
+	"verifharness/san"
 )
 
 func init() { drv.Register("C02", monC02) }
@@ -35,6 +36,11 @@ func c02Stream(cs *drv.Case, vals []ref.Value, encs [][]byte, trail []byte, sche
 	// (1) ReaderSkipDecoder over the plain io.Reader: must not read ahead
 	func() {
 		src := mk(0)
+		if len(stream) <= 3000 && sched != doubles.SchedOne && cs.R.Intn(2) == 0 {
+			// the reader itself uses the shared pool for scratch space while the decoder is mid-value
+			src.Churn = func() { san.PoolChurn(8192) }
+			cs.C.Obs("pool-churning reader cases", 1)
+		}
 		d := thrift.NewReaderSkipDecoder(src)
 		defer d.Release()
 		pos := 0
